@@ -5,6 +5,7 @@ One request per line on stdin, one reply per line on stdout.  See DESIGN.md Appe
 import SnesVerif.Gen.Map
 import SnesVerif.Gen.Color
 import SnesVerif.Map.Spec
+import SnesVerif.Bus.Model
 
 def hexNat? (s : String) : Option Nat :=
   if s.isEmpty then none else
@@ -49,8 +50,59 @@ def mapSpecFn (name : String) : Option (Nat → Nat × Bool) :=
   | "sa1rom_p2b" => some (MapSpec.pageForm MapSpec.sa1romPakPage)
   | _ => none
 
+/-- seeded background byte, identical to harness/internal/prng.Hash -/
+def hash8 (seed : UInt64) (a : UInt32) : UInt8 :=
+  let z := seed + a.toUInt64 * 0x9E3779B97F4A7C15
+  let z := (z ^^^ (z >>> 30)) * 0xBF58476D1CE4E5B9
+  let z := (z ^^^ (z >>> 27)) * 0x94D049BB133111EB
+  let z := z ^^^ (z >>> 31)
+  (z >>> 24).toUInt8
+
+def hex2 (b : UInt8) : String :=
+  String.singleton (hexDigit (b.toNat / 16)) ++ String.singleton (hexDigit (b.toNat % 16))
+
+/-! ### bus histories -/
+namespace BusDrv
+open BusModel
+
+def rdMem (m a : Nat) : UInt8 := hash8 m.toUInt64 a.toUInt32
+def prefill (i : Nat) : UInt8 := (0xA5 : UInt8) ^^^ i.toUInt8
+
+def op (b : Bus) (ws : List String) : Bus × String :=
+  match ws with
+  | ["A", m, s, e] =>
+    match hexNat? m, hexNat? s, hexNat? e with
+    | some m, some s, some e =>
+      if e ≥ 16777216 then (b, "skip") else
+      let r := b.attach m s e
+      (r.1, match r.2 with | .ok => "ok" | .badStart => "es" | .badEnd => "ee")
+    | _, _, _ => (b, "bad-op")
+  | ["R", a] | ["W", a] =>
+    match hexNat? a with
+    | some a => (b, match b.route a with | some m => s!"m{toHex m}:{toHex a}" | none => "panic")
+    | none => (b, "bad-op")
+  | ["D", s, e, n] =>
+    match hexNat? s, hexNat? e, hexNat? n with
+    | some s, some e, some n =>
+      if s ≥ 16777216 ∨ e ≥ 16777216 then (b, "skip") else
+      let r := b.eaDump rdMem s e prefill
+      (b, s!"{toHex r.1}:" ++ String.join ((List.range n).map (fun j => hex2 (r.2 j))))
+    | _, _, _ => (b, "bad-op")
+  | _ => (b, "bad-op")
+
+def run (ops : List String) : String :=
+  let (_, outs) := ops.foldl (fun (acc : Bus × List String) o =>
+    let ws := (o.splitOn " ").filter (· ≠ "")
+    if ws.isEmpty then acc else
+    let (b', r) := op acc.1 ws
+    (b', r :: acc.2)) (Bus.empty, [])
+  ";".intercalate outs.reverse
+end BusDrv
+
 def handle (line : String) : String :=
-  let ws := (line.trimAscii.toString.splitOn " ").filter (· ≠ "")
+  let line := line.trimAscii.toString
+  if line.startsWith "bus " then BusDrv.run ((line.drop 4).toString.splitOn ";") else
+  let ws := (line.splitOn " ").filter (· ≠ "")
   match ws with
   | ["map", f, a] =>
     match mapFn f, hexNat? a with
